@@ -165,7 +165,36 @@ func resolveAnchors(c *Ctx) *Anchors {
 			a.BindingPowers = g
 		}
 	}
-	// (no map: the precedence may be a pure function, see Ctx.power)
+	// or a package-level array / slice of int that parseExpression indexes with a token
+	if a.BindingPowers == nil && a.ParseExpr != nil {
+		for _, b := range a.ParseExpr.Blocks {
+			for _, in := range b.Instrs {
+				ia, ok := in.(*ssa.IndexAddr)
+				if !ok || !types.Identical(ia.Index.Type(), a.TokT) {
+					continue
+				}
+				g := rootGlobal(ia.X)
+				if g == nil || g.Pkg != c.SLib {
+					continue
+				}
+				var et types.Type
+				switch t := g.Type().(*types.Pointer).Elem().Underlying().(type) {
+				case *types.Array:
+					et = t.Elem()
+				case *types.Slice:
+					et = t.Elem()
+				}
+				if et == nil || !types.Identical(et, types.Typ[types.Int]) {
+					continue
+				}
+				if a.BindingPowers != nil && a.BindingPowers != g {
+					lost("parseExpression indexes two int tables with a token")
+				}
+				a.BindingPowers = g
+			}
+		}
+	}
+	// (no table: the precedence may be a pure function, see Ctx.power)
 	return a
 }
 
